@@ -37,7 +37,7 @@ def floors(ctx):
          "input_probes": 300, "input_probes_with_unhashable_members": 50, "sibling_key_probes": 200, "first_read_after_other_side_change_probes": 200}
     for acc in ("links", "vertices", "u_vertices", "universes", "neighbors", "find_links", "bft", "dft_recursive",
                 "dft_iterative", "ibft", "edge_whitelist"):
-        for mode in ("off", "cold", "warm", "off_then_on"):
+        for mode in ("off", "cold", "warm", "off_then_on", "off_cold"):
             if acc in ("neighbors", "bft", "dft_recursive", "dft_iterative", "ibft") or mode == "off":
                 f[f"probe:{acc}:{mode}"] = 5
     return f
@@ -191,7 +191,7 @@ def probe_returned(ctx, pool, rng, history):
     vs = [o for o in pool.objs.values() if isinstance(o, Vertex)]
     foreign_pool = vs + [o for o in pool.objs.values() if isinstance(o, Link)] + ["foreign"]
     for acc, thunk in accessors(pool, rng):
-        for mode in ("off", "cold", "warm", "off_then_on"):
+        for mode in ("off", "cold", "warm", "off_then_on", "off_cold"):
             if mode != "off" and acc not in ("neighbors", "bft", "dft_recursive", "dft_iterative", "ibft", "find_links"):
                 continue
             first = oracles.outcome(thunk)
@@ -201,9 +201,11 @@ def probe_returned(ctx, pool, rng, history):
             muts = LIST_MUTS if isinstance(cont0, (list, tuple)) else SET_MUTS if isinstance(cont0, (set, frozenset)) else MAP_MUTS
             kind = rng.choice(muts)
             foreign = rng.choice(foreign_pool)
-            Vertex.NEIGHBOR_CACHING = mode not in ("off", "off_then_on")
+            Vertex.NEIGHBOR_CACHING = mode not in ("off", "off_then_on", "off_cold")
             try:
-                if mode == "cold":
+                if mode in ("cold", "off_cold"):
+                    # (off_cold: the program-wide switch is off, but a vertex class may have switched caching on for
+                    # itself - its first answer after an edit is a cache miss like any other)
                     # make sure no entry exists yet for any vertex: touch every vertex through a public mutator
                     # that leaves the graph as it is (add then remove a scratch edge)
                     for v in vs:
